@@ -1389,4 +1389,176 @@ theorem inv5_reach {n L : Nat} {s : State} (h1 : 1 ≤ n) (h : Reach n L s) : In
       exact ih s' (inv_step hI e) (inv2_step hI h2 e) (inv5_step hI h2 h5 (by omega) e) (by rw [n_const e, hn])
     · exact ih s hI h2 h5 hn
 
+
+/-! ## active_reqs = requests whose callback has not run -/
+
+def pend (l : Nat) (it : Item) : Bool := decide (it.loop = l) && decide (it.dones = 0)
+
+theorem cnt_upd_same {α : Type} (p : α → Bool) (w : Nat → α) (t : Nat) (x : α) (n : Nat) (h : p x = p (w t)) :
+    cnt p (upd w t x) n = cnt p w n := by
+  by_cases ht : t < n
+  · have := cnt_upd p w t x n ht
+    rw [h] at this
+    omega
+  · exact cnt_upd_ge p w t x n (by omega)
+
+theorem cnt_pos {α : Type} (p : α → Bool) (w : Nat → α) (n t : Nat) (ht : t < n) (hp : p (w t) = true) :
+    0 < cnt p w n := by
+  induction n with
+  | zero => omega
+  | succ n ih =>
+    simp only [cnt]
+    by_cases e : t = n
+    · subst e; simp [hp]
+    · have := ih (by omega); omega
+
+theorem pend_report (l' : Nat) (it : Item) (st : Int) :
+    pend l' ({ it with dones := it.dones + 1, status := st, loc := Loc.reported } : Item) = false := by
+  simp [pend]
+
+def Inv4 (s : State) : Prop := ∀ l, (s.loops l).reqs = cnt (pend l) s.items s.nItems
+
+theorem inv4_signal {s : State} (c : Nat) (h : Inv4 s) : Inv4 (signal s c) := by
+  have := signal_items s c
+  intro l; rw [this.1, this.2.1, this.2.2.1]; exact h l
+
+theorem inv4_region {s : State} {t : Nat} (c : Nat) (h : Inv4 s) : Inv4 (doRegion s t c).1 := by
+  unfold doRegion
+  split
+  · exact h
+  · exact h
+  · simp only []
+    split
+    · apply inv4_signal
+      intro l; simp only []
+      rw [cnt_upd_same _ _ _ _ _ (by simp [pend])]; exact h l
+    · intro l; simp only []
+      rw [cnt_upd_same _ _ _ _ _ (by simp [pend])]; exact h l
+
+theorem inv4_step {s s' : State} {a : Act} {evs : List Ev} (hI : Inv s) (h : Inv4 s)
+    (e : step s a = some (s', evs)) : Inv4 s' := by
+  unfold step at e
+  cases a with
+  | sub l k c =>
+    simp only [] at e
+    split at e
+    · simp only [Option.some.injEq] at e
+      unfold doSub at e
+      simp only [] at e
+      have key : ∀ (it : Item), it.loop = l → it.dones = 0 → ∀ l',
+          (upd s.loops l { (s.loops l) with reqs := (s.loops l).reqs + 1 } l').reqs =
+            cnt (pend l') (upd s.items s.nItems it) (s.nItems + 1) := by
+        intro it h1 h2 l'
+        simp only [cnt, upd_same]
+        rw [cnt_upd_ge _ _ _ _ _ (Nat.le_refl _)]
+        have := h l'
+        simp only [upd, pend, h1, h2]
+        by_cases e : l' = l
+        · subst e; simp; omega
+        · have e' : ¬ l = l' := fun x => e x.symm
+          simp [e, e']; omega
+      (repeat' split at e) <;> obtain ⟨rfl, rfl⟩ := Prod.mk.inj e <;> (try apply inv4_signal) <;>
+        exact key _ rfl rfl
+    · simp at e
+  | can l j =>
+    simp only [] at e
+    split at e
+    · simp only [Option.some.injEq] at e
+      unfold doCan1 at e
+      simp only [] at e
+      (repeat' split at e) <;> obtain ⟨rfl, rfl⟩ := Prod.mk.inj e <;> intro l' <;> simp only []
+      · rw [cnt_upd_same _ _ _ _ _ (by simp [pend])]
+        have := h l'; simp only [upd]; split <;> simp_all
+      · have := h l'; simp only [upd]; split <;> simp_all
+    · simp at e
+  | go l =>
+    simp only [] at e
+    split at e
+    · split at e
+      · simp only [Option.some.injEq] at e
+        unfold doCan2 at e
+        simp only [] at e
+        (repeat' split at e) <;> obtain ⟨rfl, rfl⟩ := Prod.mk.inj e <;> intro l' <;> simp only []
+        · rw [cnt_upd_same _ _ _ _ _ (by simp [pend])]
+          have := h l'; simp only [upd]; split <;> simp_all
+        · have := h l'; simp only [upd]; split <;> simp_all
+      · split at e
+        · simp at e
+        · simp only [Option.some.injEq] at e
+          unfold doReport at e
+          simp only [] at e
+          split at e
+          · obtain ⟨rfl, rfl⟩ := Prod.mk.inj e
+            intro l'; have := h l'; simp only [upd]; split <;> simp_all
+          · rename_i i rest hl
+            obtain ⟨rfl, rfl⟩ := Prod.mk.inj e
+            have a1 := hI.lqLoc l i (Or.inr (by simp [hl]))
+            have a2 := hI.itemOk i a1.1
+            simp only [ItemOk, a1.2.1] at a2
+            intro l'
+            have := h l'
+            have cu := cnt_upd (pend l') s.items i
+              { (s.items i) with dones := (s.items i).dones + 1,
+                                 status := if (s.items i).work = Work.cancelled then ECANCELED else 0,
+                                 loc := Loc.reported } s.nItems a1.1
+            have po : pend l' (s.items i) = decide (l = l') := by simp [pend, a1.2.2, a2.2.1]
+            rw [po, pend_report] at cu
+            simp only []
+            rw [cu]
+            by_cases e : l' = l
+            · subst e; rw [upd_same]; simp; omega
+            · have e' : ¬ l = l' := fun x => e x.symm
+              rw [upd_ne _ _ _ _ e]; simp [e']; omega
+    · simp at e
+  | drn l =>
+    simp only [] at e
+    split at e
+    · simp only [Option.some.injEq] at e
+      unfold doDrain at e
+      obtain ⟨rfl, rfl⟩ := Prod.mk.inj e
+      intro l'; have := h l'; simp only [upd]; split <;> simp_all
+    · simp at e
+  | wk t c =>
+    simp only [] at e
+    split at e
+    · unfold doWorker at e
+      split at e
+      · simp at e
+      · simp only [Option.some.injEq] at e
+        rw [← fst_of_eq e]; exact inv4_region c h
+      · simp only [Option.some.injEq] at e
+        rw [← fst_of_eq e]; exact inv4_region c h
+      · simp only [Option.some.injEq] at e
+        rw [← fst_of_eq e]; exact inv4_region c h
+      · simp only [Option.some.injEq] at e
+        obtain ⟨rfl, rfl⟩ := Prod.mk.inj e
+        intro l'; simp only []
+        rw [cnt_upd_same _ _ _ _ _ (by simp [pend])]; exact h l'
+      · simp only [Option.some.injEq] at e
+        obtain ⟨rfl, rfl⟩ := Prod.mk.inj e
+        intro l'; simp only []
+        rw [cnt_upd_same _ _ _ _ _ (by simp [pend])]
+        have := h l'; simp only [upd]; split <;> simp_all
+    · simp at e
+  | wake t =>
+    simp only [] at e
+    split at e
+    · simp only [Option.some.injEq] at e
+      obtain ⟨rfl, rfl⟩ := Prod.mk.inj e
+      exact h
+    · simp at e
+
+theorem inv4_reach {n L : Nat} {s : State} (h : Reach n L s) : Inv4 s := by
+  obtain ⟨as, rfl⟩ := h
+  suffices ∀ s, Inv s → Inv4 s → Inv4 (run s as) from
+    this _ (inv_init n L) (by intro l; simp [State.init, LoopSt.init, cnt])
+  induction as with
+  | nil => intro s _ h4; exact h4
+  | cons a as ih =>
+    intro s hI h4
+    simp only [run]
+    split
+    · rename_i s' evs e; exact ih s' (inv_step hI e) (inv4_step hI h4 e)
+    · exact ih s hI h4
+
 end UvModel.Tpool
